@@ -2,7 +2,6 @@ package main
 
 import "math/big"
 
-
 func c16More(c *Ctx, r *Report, p *Prog, f *Folder, P, N interface{}) {
 	// (b) canonical decode: inventories of both SetBytes (bound folded to p-1 resp. n-1) and of the point decoder
 	protoDecoders(r, p)
